@@ -143,7 +143,15 @@ class SyncedList(SyncedCollection, MutableSequence):
                 # inserting at the beginning will require reconverting all
                 # elements of the data.
                 for i in range(min(len(self), len(data))):
-                    if data[i] == self._data[i]:
+                    # Equal values of different types (1 == True == 1.0) are
+                    # not the same data, and equal containers may still differ
+                    # in the types of their leaves, so only identical objects
+                    # and equal scalars of the same type can be skipped.
+                    if data[i] is self._data[i] or (
+                        type(data[i]) is type(self._data[i])
+                        and _sc_resolver.get_type(self._data[i]) != "SYNCEDCOLLECTION"
+                        and data[i] == self._data[i]
+                    ):
                         continue
                     # A value of None must replace the existing entry;
                     # _update(None) means "no data" and would ignore it.
